@@ -484,6 +484,11 @@ def oracle_c09(rep, scn, replay, obs, root, report):
                     items.append((h, [(e[0], e[1], e[2]) for e in g["root"]]))
                     fmts_root |= {e[0] for e in g["root"]}
                 for p, es in items:
+                    # a folder the effective patterns exclude (itself, or a folder above it) is not visited: what was recorded
+                    # for it is not part of what verify -dh compares
+                    parts = p.split("/") if p else []
+                    if any(spec_of(pats).match_file("/".join(parts[:k + 1])) for k in range(len(parts))):      # the criterion of dirhash_reference
+                        continue
                     for f, c, s in es:
                         if f not in refs:
                             refs[f] = dirhash_reference(tree, pats, f)
